@@ -72,7 +72,7 @@ InitWith(c) ==
   /\ ended = FALSE /\ obs = ObsInit
   /\ hist = <<>> /\ cur = 1 /\ delays = 0
 
-Init == \E cl \in WithClose : InitWith([close |-> cl, workers |-> Workers])
+Init == \E cl \in WithClose : InitWith([close |-> cl, workers |-> Workers, mpk |-> MaxPerKey, mk |-> MaxKeys])
 
 Usable(c) == cusable[c] /\ cst[c] = "open"
 Live == {k \in Keys : keys[k] # NoB}
@@ -182,11 +182,11 @@ WRetLock(w) ==
      /\ IF keysNil THEN UNCHANGED <<poolV, cst, async>> /\ obs' = ObsReturnReturn(obs, w)
         ELSE IF keys[k] # NoB
         THEN LET ch == keys[k].ch IN
-             /\ IF Len(chans[ch].buf) < MaxPerKey
+             /\ IF Len(chans[ch].buf) < cfg.mpk
                 THEN chans' = [chans EXCEPT ![ch].buf = Append(@, c)] /\ UNCHANGED async
                 ELSE async' = async \cup {c} /\ UNCHANGED chans
              /\ UNCHANGED <<keys, keysNil, cst>> /\ obs' = ObsReturnReturn(obs, w)
-        ELSE LET gc == IF Cardinality(Live) = MaxKeys THEN StaleKeys ELSE {}
+        ELSE LET gc == IF Cardinality(Live) = cfg.mk THEN StaleKeys ELSE {}
                  dead == Bufs(gc)
                  nch == Len(chans) + 1 IN
              /\ keys' = [x \in Keys |-> IF x = k THEN [ch |-> nch, lastUse |-> now]
@@ -266,7 +266,7 @@ Clock == EnClock /\ ~ended /\ ClockBody
 Hung == {w \in Workers : wpc[w] # "idle"} \cup (IF ppc \in {"none", "done"} THEN {} ELSE {"closer"})
 
 CfgJson == [close |-> cfg.close, workers |-> SetToSeq(cfg.workers), keys |-> SetToSeq(Keys),
-            maxPerKey |-> MaxPerKey, maxKeys |-> MaxKeys, life |-> Life, stale |-> Stale,
+            maxPerKey |-> cfg.mpk, maxKeys |-> cfg.mk, life |-> Life, stale |-> Stale,
             period |-> Period, maxTime |-> MaxTime]
 
 End == /\ ~ended /\ ~ProcEnabled /\ ~EnClock
@@ -335,7 +335,7 @@ Spec == Init /\ [][Next]_vars /\ Fairness
 
 (* ------------------------------------------------------------------------ *)
 NoViolation == obs.viol = {}
-TypeOK == /\ \A i \in DOMAIN chans : Len(chans[i].buf) <= MaxPerKey
+TypeOK == /\ \A i \in DOMAIN chans : Len(chans[i].buf) <= cfg.mpk
           /\ nconn <= MaxConns
 \* a connection is in at most one place
 OnePlace == \A c \in Conns :
